@@ -132,17 +132,22 @@ pub fn build(rng: &mut Rng, o: &mut Outcome) -> Spreadsheet {
             let run = rng.range(1, 4);
             let width = *rng.pick(&[3.0, 8.43, 12.5, 20.0, 255.0]);
             let hidden = rng.chance(1, 5);
+            let best_fit = rng.chance(1, 4);
             let st = if rng.chance(1, 2) { Some(rng.pick(&styles).clone()) } else { None };
             let break_at = if rng.chance(1, 2) { Some(rng.range(0, run - 1)) } else { None };
             for j in 0..run {
                 let col = ws.get_column_dimension_by_number_mut(&(c + j));
                 col.set_width(width);
                 col.set_hidden(hidden);
+                col.set_best_fit(best_fit);
                 if let Some(s) = &st {
                     col.set_style(s.clone());
                 }
                 if break_at == Some(j) {
-                    match rng.below(3) {
+                    match rng.below(4) {
+                        3 => {
+                            col.set_best_fit(!best_fit);
+                        }
                         0 => {
                             col.set_width(width + 1.5);
                         }
